@@ -1,7 +1,8 @@
 open Dtdflush
 open Vio
 (* Model driver of C17: same case file as harness/h_dtdflush.c, one line per case
-     in: <t>=<v>,<v> ... | snap: <v>,<v>,.. ... | data: v ... | runs: c ... | null=<k>
+     in: <t>=<v>,<v> ... | snap: <v>,<v>,.. ... | data: v ... | runs: c ... | null=<k> torn=<n>
+   (a tile is printed as its value; the harness prints e0/e1/.. for a tile whose elements disagree)
    The case's items are translated to the API calls of the model (OTask with the execution rank: the
    "@r" value or the owner of the flow marked "^"; OFlush; OFlushAll; OWait), followed by OFlushAll;
    OWait as the harness does.  [compile] gives the inserted tasks and the wait points.  The inputs
@@ -10,7 +11,8 @@ open Vio
    wait point after the other: at every wait point (all inserted tasks done) the owners' storage [home]
    is printed.  The observations of the engine must equal the reference. *)
 
-let mode_of_char = function 'r' -> R | 'w' -> W | _ -> RW
+(* 'h' = read through the datatype of the leading part of the tile: a read at the level of tile values *)
+let mode_of_char = function 'r' | 'h' -> R | 'w' -> W | _ -> RW
 
 let parse_items owner body =
   let fields = List.filter (fun t -> t <> "") (List.map String.trim (String.split_on_char ';' body)) in
@@ -104,6 +106,6 @@ let () =
            ^ " | snap:" ^ String.concat "" (List.map (fun sn -> " " ^ str_n sn) mids)
            ^ " | data:" ^ String.concat "" (List.map (fun v -> " " ^ string_of_int (int_of_n v)) last)
            ^ " | runs:" ^ String.concat "" (List.map (fun k -> " " ^ string_of_int (int_of_nat (!s.eng.nruns (nat_of_int k)))) upos)
-           ^ " | null=0"
+           ^ " | null=0 torn=0"
          end
        | _ -> "<bad case>"))
